@@ -242,6 +242,19 @@ class World:
         asg_cmds = step.get("asg", [])
         self.soft_reject = None
         expect = self.predict_reject(step)
+        if self.step_no % 2 == 1:
+            # what a reporting client does between two ticks: serialise pools, containers and pipelines.  Reading
+            # must not change anything (the comparison with the model after this tick would show it).
+            try:
+                for p_ in self.ex.pools:
+                    p_.to_dict()
+                    for c_ in list(p_.active_containers) + list(p_.suspending_containers):
+                        c_.to_dict()
+                for pl_ in self.pipes[:20]:
+                    pl_.to_dict()
+                self.ev("state_serialised_between_ticks")
+            except Exception as e:
+                self.problem((ANY,), "serialisation-raised", f"to_dict() raised {type(e).__name__}: {e}")
         before = [self.pool_snapshot(k) for k in range(self.npools)]
 
         # --- build Assignment objects (construction moves operators to ASSIGNED)
@@ -260,7 +273,8 @@ class World:
                 ops = [self.ops[pi][oi] for pi, oi in keys]
                 prio = sut.Priority[a["prio"]] if a.get("prio") else (ops[0].pipeline.priority if ops else sut.Priority.QUERY)
                 ra = sut.Assignment(ops=ops, cpu=a["cpu"], ram=a["ram"], priority=prio, pool_id=a["pool"],
-                                    pipeline_id=ops[0].pipeline.pipeline_id if ops else "none")
+                                    pipeline_id=ops[0].pipeline.pipeline_id if ops else "none",
+                                    **({"is_resume": True} if a.get("resume") else {}))
             except Exception as e:
                 self.ev("assignment_construction_refused")
                 if ok_states and valid_args:
@@ -287,11 +301,28 @@ class World:
         except Exception as e:  # the executor refuses by raising
             results = None
             exc = e
+        # a consumer may keep what it was handed: the result lists of earlier ticks must still say what they said
+        kept = getattr(self, "_kept_results", None)
+        if kept is None:
+            kept = self._kept_results = []
+        for (t_, lst_, ids_) in kept:
+            if [id(r) for r in lst_] != ids_:
+                self.problem(("C09",), "delivered-results-changed", f"the result list delivered in tick {t_} held {len(ids_)} result(s); "
+                                                                     f"looked at again in tick {self.step_no} it holds {len(lst_)} (other) ones")
+                kept.clear()
+                break
+        if results is not None:
+            kept.append((self.step_no, results, [id(r) for r in results]))
+            del kept[:-6]
+            if results:
+                self.ev("result_lists_kept_and_rechecked")
 
         if exc is not None:
             self.ev("step_raised")
             if expect is not None:
                 self.ev("rejected:" + expect[0])
+                if step.get("_releasing"):
+                    self.ev("rejected:request-for-resources-of-a-container-in-its-last-write-out-tick")
                 reason, k, tags = expect
                 if k is not None and reason.startswith(("oversell", "suspend")):
                     mixed = reason.startswith("oversell") and any(s["pool"] == k for s in sus_cmds)
@@ -328,6 +359,8 @@ class World:
         # --- no exception
         if expect is not None:
             reason, k, tags = expect
+            if step.get("_releasing"):
+                tags = tuple(tags) + ("C10",)       # the allocation of a container still writing out was handed out
             self.problem(tags, "inadmissible-accepted", f"step should be refused ({reason}) but was executed: {step}")
             self.ended = "inadmissible-accepted"
             return
@@ -485,6 +518,8 @@ class World:
                         "order": ("C11",), "overkill": ("C11",), "over-capacity": ("C04", "C11")}[kind]
                 self.problem(tags, "oom-" + kind, f"pool {k}: {msg}")
             n_pl = sum(1 for c in conts if c["mc"].cid in obs_failed and c["mc"].cid is not None and not c["indiv"])
+            if n_pl and any(s_["pool"] == k for s_ in sus_cmds):
+                self.ev("kill_pool_level_in_a_tick_with_a_suspension")
             if n_pl > 8:
                 self.ev("ticks_with_more_than_8_pool_level_kills")
             if n_pl > 1:
